@@ -146,6 +146,7 @@ type Pather struct {
 	stack map[ssa.Value]bool
 	// Stores forwards loads from local allocs that are stored exactly once.
 	single map[*ssa.Alloc]ssa.Value
+	origin map[*ssa.Alloc]ssa.Value
 	// KeepConv keeps integer conversions visible as conv<T>(x)
 	KeepConv bool
 	// Loads, when set, gives the path-sensitive value of loads from address-taken
@@ -208,6 +209,9 @@ func (p *Pather) inlineHelper(x *ssa.Call, args []string) (string, bool) {
 // a spilled copy of one value (e.g. an array parameter) is named by that value.
 func (p *Pather) addrBase(v ssa.Value) string {
 	if a, ok := v.(*ssa.Alloc); ok {
+		if ov, ok := p.origin[a]; ok {
+			return p.Path(ov)
+		}
 		if sv, ok := p.single[a]; ok {
 			if _, isLit := p.arrayLit(a); !isLit {
 				switch sv.(type) {
@@ -284,12 +288,41 @@ func NewPather(fn *ssa.Function) *Pather {
 			}
 		}
 	}
+	p.origin = map[*ssa.Alloc]ssa.Value{}
 	for a, vs := range stores {
-		if len(vs) == 1 {
+		if len(vs) != 1 {
+			continue
+		}
+		if !addressEscapes(a) {
 			p.single[a] = vs[0]
+		}
+		// a local that is only the spilled copy of a parameter is named after it
+		if _, isParam := vs[0].(*ssa.Parameter); isParam {
+			p.origin[a] = vs[0]
 		}
 	}
 	return p
+}
+
+// addressEscapes: the alloc's address is used other than by loads, stores to it and
+// field/element addressing (e.g. handed to a callee that may write through it).
+func addressEscapes(a *ssa.Alloc) bool {
+	for _, r := range Referrers(a) {
+		switch x := r.(type) {
+		case *ssa.UnOp:
+			if x.Op != token.MUL {
+				return true
+			}
+		case *ssa.Store:
+			if x.Val == ssa.Value(a) {
+				return true
+			}
+		case *ssa.FieldAddr, *ssa.IndexAddr, *ssa.DebugRef:
+		default:
+			return true
+		}
+	}
+	return false
 }
 
 func (p *Pather) Path(v ssa.Value) string {
